@@ -20,7 +20,7 @@ COMPONENTS = ['thunkmachine']
 THEOREMS = ['C11_done_is_stable', 'C11_history_independent_if_restored', 'C11_history_independent_if_restored_eq',
             'C11_memo_transparent', 'C11_restored_nonvacuous',
             'C11_history_independent_unrestored_refuted', 'C11_assert_flag_unrestored_refuted',
-            'C11_memo_limit_refuted', 'C11_assert_order_example', 'C11_intern_lookup_sound', 'C11_nonvacuous']
+            'C11_memo_limit_refuted', 'C11_assert_order_example', 'C11_intern_lookup_sound', 'C11_super_lookup_sound', 'C11_super_lookup_old_refuted', 'C11_nonvacuous']
 ALLOWED_AXIOMS = set()
 TRANSLATORS = []
 
@@ -514,6 +514,79 @@ def gen_derive_session(rng):
     return rng.choice(['', '', 'gc=3']), srcs, reqs, run_kinds
 
 
+def gen_name_session(rng):
+    """field names computed at run time and used through every interner shortcut of the evaluator, on
+    objects that do / do not have the field and do / do not have a super object; the same string is
+    interned (as a static name in ANOTHER source) by an earlier request, a later one, or never"""
+    p1, p2 = rng.choice(['zq', 'wq', 'yk', 'jx']), 'v%d' % rng.randint(0, 99)
+    name = p1 + p2
+
+    def N():   # an expression computing the name without containing it
+        return rng.choice(['("%s" + "%s")' % (p1, p2),
+                           '(std.char(%d) + "%s")' % (ord(name[0]), name[1:]),
+                           '("%%s%%s" %% ["%s", "%s"])' % (p1, p2),
+                           'std.join("", ["%s", "%s"])' % (p1, p2),
+                           'std.substr("_%s_", 1, %d)' % ('" + "'.join([p1, p2]), len(name)) if False else '("%s" + "%s")' % (name[:1], name[1:])])
+
+    def O():   # objects without / with the field (the field itself has a computed name)
+        return rng.choice(['{ k: 1 }', '{ k: 1 } + { j: 2 }', '{ [%s]: 1, k: 2 }' % N(), '{ [%s]:: 1 }' % N(),
+                           '({ [%s]: 1 } + { k: 2 })' % N(), '({ k: 2 } + { [%s]: 3 })' % N(), '(import "s0")', '{ }'])
+
+    def S(use):   # an object whose field `a` uses super: no super object / super without / with the field
+        return rng.choice(['{ a: %s }.a' % use, '{ a: %s, k: 1 }.a' % use, '({ k: 1 } + { a: %s }).a' % use,
+                           '({ [%s]: 5 } + { a: %s }).a' % (N(), use), '({ [%s]:: 5 } + { k: 1 } + { a: %s }).a' % (N(), use),
+                           '{ o: { a: %s } }.o.a' % use, '({ k: 1 } + { o: { a: %s } }).o.a' % use,
+                           'local f() = { a: %s }; f().a' % use])
+
+    def client():
+        k = rng.randrange(14)
+        if k == 0:
+            return '%s[%s]' % (O(), N())
+        if k == 1:
+            return '%s in %s' % (N(), O())
+        if k == 2:
+            return 'std.objectHas(%s, %s)' % (O(), N())
+        if k == 3:
+            return 'std.objectHasAll(%s, %s)' % (O(), N())
+        if k == 4:
+            return 'std.objectHasEx(%s, %s, %s)' % (O(), N(), rng.choice(['true', 'false']))
+        if k == 5:
+            return 'std.get(%s, %s, "dflt")' % (O(), N())
+        if k == 6:
+            return 'std.objectRemoveKey(%s, %s)' % (O(), N())
+        if k == 7:
+            return '("%%(" + %s + ")s") %% %s' % (N(), O())
+        if k == 8:
+            return 'std.extVar(%s)' % N()
+        if k == 9:
+            return 'std.native(%s)' % N()
+        if k in (10, 11):
+            return S('super[%s]' % N())
+        if k == 12:
+            return S('%s in super' % N())
+        return 'std.mergePatch(%s, { [%s]: null })' % (O(), N())
+
+    interners = ['{ k: 1, other: 2 }',                       # s0: a library object without the name
+                 '{ %s: 1 }' % name, 'local x = { %s: 1 }; 0' % name, 'function(%s) 0' % name,
+                 'local %s = 1; %s' % (name, name), '{ o: { %s:: 2 } }.o' % name]
+    srcs = [interners[0]] + rng.sample(interners[1:], 2)
+    ni = len(srcs)
+    for _ in range(rng.randint(3, 6)):
+        srcs.append(client())
+    reqs = []
+    for _ in range(rng.randint(3, 8)):
+        r = rng.random()
+        if r < 0.3:
+            k = rng.randrange(1, ni)
+            reqs.append(rng.choice(['L%x', 'E%x', 'N%x']) % k)
+        elif r < 0.36:
+            reqs.append('G')
+        else:
+            k = rng.randrange(ni, len(srcs))
+            reqs.append(rng.choice(['E%x', 'E%x', 'M%x:0']) % k)
+    return '', srcs, reqs
+
+
 def src_field(srcs):
     return ';'.join(hxl(list(s.encode())) for s in srcs)
 
@@ -697,7 +770,10 @@ def corpus_machines():
 
 def check(run):
     rng = vlib.rng_for(run.seed, ID)
-    run.rule = ('derive sessions: 2..3 shared library values with late-bound fields a/b/c built by literal / comprehension / + / super / '
+    run.rule = ('name sessions: a field name computed at run time (+, std.char, %, join) used through o[e], e in o, objectHas/All/Ex, std.get, '
+                'objectRemoveKey, %(key)s, mergePatch, extVar, native, super[e], e in super, on objects with/without the field and with/without '
+                'a super object, while other sources that contain the name statically are loaded/evaluated before, after, or never. '
+                'derive sessions: 2..3 shared library values with late-bound fields a/b/c built by literal / comprehension / + / super / '
                 'objectRemoveKey / mergePatch / mapWithKey / function result / nested, 3..8 requests that force fields and, later, derive new '
                 'objects from the same values (extend either side, override, remove, patch; also through eval_call) and read late-bound fields. '
                 'object sessions: an inheritance chain of 1..3 layers with assertions in any subset of the layers (constant, on an overridable '
@@ -753,6 +829,8 @@ def check(run):
             run.count('derive_' + kd)
         dsessions.append((opts, srcs, reqs))
     run_sessions(run, impl_exe, dsessions, 'd')
+    nsessions = [gen_name_session(rng) for _ in range(8000 if thorough else 600)]
+    run_sessions(run, impl_exe, nsessions, 'n')
 
 
 def replay(run, path):
